@@ -5,8 +5,10 @@
 //
 // Observation: the WriteAt log of the in-memory device (which also records
 // writes that reach a device whose Writable() refused), and the SHA-256 of the
-// image before/after (for the three file-backed modes the image is a real
-// temporary file under the scratch directory).
+// image before/after (for the file-backed modes - every constructor of backend/file and diskfs.Open
+// with every flag combination, directly and under backend.Sub - the image is a real temporary file
+// under the scratch directory), and, per constructor, the access mode of the OS handle (fcntl
+// F_GETFL) and the answer of Writable().
 package readonly
 
 import (
@@ -15,9 +17,11 @@ import (
 	"encoding/hex"
 	"fmt"
 	"io"
+	iofs "io/fs"
 	"os"
 	"path/filepath"
 	"strings"
+	"syscall"
 	"time"
 
 	diskfs "github.com/diskfs/go-diskfs"
@@ -26,6 +30,9 @@ import (
 	"github.com/diskfs/go-diskfs/disk"
 	"github.com/diskfs/go-diskfs/filesystem"
 	"github.com/diskfs/go-diskfs/filesystem/ext4"
+	"github.com/diskfs/go-diskfs/filesystem/iso9660"
+	"github.com/diskfs/go-diskfs/filesystem/squashfs"
+	"github.com/diskfs/go-diskfs/partition/gpt"
 
 	ml "verif/harness/engines/modeslib"
 	"verif/harness/internal/hx"
@@ -46,6 +53,8 @@ type image struct {
 	size  int64
 	proto *memdev.Dev // pristine content
 	file  string      // path of the dumped copy (lazily made)
+	fhash string      // SHA-256 of the dumped copy as written (the file must never differ from it)
+	fstat string      // size, mtime and ctime of the dumped copy as written
 }
 
 func imgSize(kind string) int64 {
@@ -79,7 +88,7 @@ func openDisk(b backend.Storage, ss int64) (*disk.Disk, error) {
 	return diskfs.OpenBackend(b, diskfs.WithSectorSize(diskfs.SectorSize(ss)))
 }
 
-func buildImages() ([]*image, error) {
+func buildImages(thorough bool) ([]*image, error) {
 	var out []*image
 	for _, k := range ml.Kinds {
 		im := &image{name: k.Name, kind: k.Name, ss: secSize(k.Name), size: imgSize(k.Name)}
@@ -93,41 +102,190 @@ func buildImages() ([]*image, error) {
 		}
 		out = append(out, im)
 	}
-	for _, t := range []string{"gpt", "mbr"} {
-		im := &image{name: t, kind: "fat12", part: 1, ss: 512, size: 4 * MB}
+	type tbl struct {
+		name, table, kind string
+		secs              uint32
+	}
+	tbls := []tbl{{"gpt", "gpt", "fat12", 2048}, {"mbr", "mbr", "fat12", 2048}}
+	if thorough {
+		// a filesystem that the library reads through backend.Sub at a non-zero start (ext4 in a partition)
+		tbls = append(tbls, tbl{"mbr-ext4", "mbr", "ext4", 32768})
+	}
+	for _, t := range tbls {
+		im := &image{name: t.name, kind: t.kind, part: 1, ss: 512, size: int64(2048+t.secs+2048) * 512}
 		im.proto = memdev.New(im.size)
 		d, err := openDisk(im.proto, 512)
 		if err != nil {
 			return nil, err
 		}
-		if t == "gpt" {
-			err = d.Partition(ml.GPTOne(2048, 2048))
+		if t.table == "gpt" {
+			err = d.Partition(ml.GPTOne(2048, uint64(t.secs)))
 		} else {
-			err = d.Partition(ml.MBROne(2048, 2048))
+			err = d.Partition(ml.MBROne(2048, t.secs))
 		}
 		if err != nil {
-			return nil, fmt.Errorf("build %s: %w", t, err)
+			return nil, fmt.Errorf("build %s: %w", t.name, err)
 		}
-		k, _ := ml.KindByName("fat12")
+		k, _ := ml.KindByName(t.kind)
 		if err := ml.MakeFS(d, 1, k, "RO", ml.SmallTree(3)); err != nil {
-			return nil, fmt.Errorf("build %s fs: %w", t, err)
+			return nil, fmt.Errorf("build %s fs: %w", t.name, err)
 		}
 		out = append(out, im)
 	}
 	return out, nil
 }
 
-// modes of access. ro* are the four ways of being read-only; rw is a writable backend (used for
-// the reader clause and for finalized iso9660/squashfs).
-var modes = []string{"ro-backend", "ro-open", "ro-frompath", "ro-filenew", "rw"}
+// modes of access. ro-* : read-only access was asked for, through one constructor of the library (or a
+// backend of ours whose Writable() refuses), directly or under backend.Sub; rw* : a writable backend
+// (used for the reader clause and for finalized iso9660/squashfs).
+//
+// model key: the row of the Lean constructor table the mode corresponds to (ctor, a, b), the access
+// mode of the caller's handle for file.New, and the backend.Sub nesting depth.
+type modeDef struct {
+	name   string
+	ro     bool
+	mem    bool   // backed by the in-memory device (write log available)
+	level  string // "all" | "disk": run disk-level ops only (the prepared filesystem need not open at this sector size)
+	thin   bool   // quick tier: the reduced op set (the constructor's full table runs under its direct mode)
+	ctor   string // "refusing" | "nowriter" | "0".."3"
+	a      string
+	b      int
+	handle int
+	sub    int
+	ss4k   bool // open with a 4096-byte sector size whatever the image was made with
+	obOpt  bool // the storage is writable; read-only is asked for through diskfs.OpenBackend(b, WithOpenMode(ReadOnly))
+	images []string // table cases only on these images (nil: all)
+	// open returns the disk (diskfs.Open) or the storage to hand to diskfs.OpenBackend
+	open func(path string, ssOpt []diskfs.OpenOpt) (*disk.Disk, backend.Storage, error)
+}
+
+func stor(b backend.Storage, err error) (*disk.Disk, backend.Storage, error) { return nil, b, err }
+
+func osNew(flag int, ro bool) func(string, []diskfs.OpenOpt) (*disk.Disk, backend.Storage, error) {
+	return func(p string, _ []diskfs.OpenOpt) (*disk.Disk, backend.Storage, error) {
+		f, err := os.OpenFile(p, flag, 0o600)
+		if err != nil {
+			return nil, nil, err
+		}
+		return nil, file.New(f, ro), nil
+	}
+}
+
+// plainFile is an fs.File with ReadAt and Seek and NO WriteAt: rawBackend.Writable's third branch
+// (the handle is no backend.WritableFile: ErrNotSuitable), whatever the readOnly flag says.
+type plainFile struct{ f *os.File }
+
+func (p plainFile) Stat() (iofs.FileInfo, error)            { return p.f.Stat() }
+func (p plainFile) Read(b []byte) (int, error)              { return p.f.Read(b) }
+func (p plainFile) Close() error                            { return p.f.Close() }
+func (p plainFile) ReadAt(b []byte, off int64) (int, error) { return p.f.ReadAt(b, off) }
+func (p plainFile) Seek(off int64, wh int) (int64, error)   { return p.f.Seek(off, wh) }
+
+func plainNew(flag int, ro bool) func(string, []diskfs.OpenOpt) (*disk.Disk, backend.Storage, error) {
+	return func(p string, _ []diskfs.OpenOpt) (*disk.Disk, backend.Storage, error) {
+		f, err := os.OpenFile(p, flag, 0o600)
+		if err != nil {
+			return nil, nil, err
+		}
+		return nil, file.New(plainFile{f}, ro), nil
+	}
+}
+
+func fromPathX(ro, excl bool) func(string, []diskfs.OpenOpt) (*disk.Disk, backend.Storage, error) {
+	return func(p string, _ []diskfs.OpenOpt) (*disk.Disk, backend.Storage, error) {
+		return stor(file.OpenFromPathWithExclusive(p, ro, excl))
+	}
+}
+
+func fromPath(ro bool) func(string, []diskfs.OpenOpt) (*disk.Disk, backend.Storage, error) {
+	return func(p string, _ []diskfs.OpenOpt) (*disk.Disk, backend.Storage, error) {
+		return stor(file.OpenFromPath(p, ro))
+	}
+}
+
+// dOpen: diskfs.Open with the mode options given; where: where the sector-size option goes ("last" | "first")
+func dOpen(where string, modeOpts ...diskfs.OpenOpt) func(string, []diskfs.OpenOpt) (*disk.Disk, backend.Storage, error) {
+	return func(p string, ssOpt []diskfs.OpenOpt) (*disk.Disk, backend.Storage, error) {
+		var opts []diskfs.OpenOpt
+		if where == "first" {
+			opts = append(append(opts, ssOpt...), modeOpts...)
+		} else {
+			opts = append(append(opts, modeOpts...), ssOpt...)
+		}
+		d, err := diskfs.Open(p, opts...)
+		return d, nil, err
+	}
+}
+
+var (
+	optRO  = diskfs.WithOpenMode(diskfs.ReadOnly)
+	optRW  = diskfs.WithOpenMode(diskfs.ReadWrite)
+	optRWX = diskfs.WithOpenMode(diskfs.ReadWriteExclusive)
+)
+
+var modeDefs = []modeDef{
+	// a backend of ours whose Writable() refuses
+	{name: "ro-backend", ro: true, mem: true, level: "all", ctor: "refusing"},
+	// diskfs.Open(ReadOnly) and its option combinations
+	{name: "ro-open", ro: true, level: "all", ctor: "0", a: "0", open: dOpen("last", optRO)},
+	{name: "ro-open-ssfirst", ro: true, level: "all", ctor: "0", a: "0", open: dOpen("first", optRO)},
+	{name: "ro-open-override", ro: true, level: "all", ctor: "0", a: "0", open: dOpen("last", optRW, optRWX, optRO)}, // the last WithOpenMode wins
+	{name: "ro-open-ss4k", ro: true, level: "disk", ctor: "0", a: "0", ss4k: true, open: dOpen("last", optRO)},
+	// backend/file constructors
+	{name: "ro-frompath", ro: true, level: "all", ctor: "1", a: "1", open: fromPath(true)},
+	{name: "ro-frompathx-excl", ro: true, level: "all", ctor: "2", a: "1", b: 1, open: fromPathX(true, true)},
+	{name: "ro-frompathx-nonexcl", ro: true, level: "all", ctor: "2", a: "1", b: 0, open: fromPathX(true, false)},
+	// file.New(readOnly=true): over a handle that IS writable (only the library's own refusal protects the image) and over an O_RDONLY one
+	{name: "ro-filenew", ro: true, level: "all", ctor: "3", a: "1", handle: 2, open: osNew(os.O_RDWR, true)},
+	{name: "ro-filenew-rdonly", ro: true, level: "all", ctor: "3", a: "1", handle: 0, open: osNew(os.O_RDONLY, true)},
+	// file.New over an fs.File that is no io.WriterAt (the OS handle behind it is O_RDWR): Writable() fails with
+	// ErrNotSuitable even with readOnly=false - "a backend whose Writable() fails" made by the library itself
+	{name: "ro-filenew-nowriter", ro: true, level: "all", thin: true, ctor: "nowriter", a: "0", handle: 2, open: plainNew(os.O_RDWR, false)},
+	{name: "ro-filenew-nowriter-ro", ro: true, level: "all", thin: true, ctor: "nowriter", a: "1", handle: 2, open: plainNew(os.O_RDWR, true)},
+	// backend.Sub over each
+	{name: "ro-sub-backend", ro: true, mem: true, level: "all", thin: true, ctor: "refusing", sub: 1},
+	{name: "ro-sub-open", ro: true, level: "all", thin: true, ctor: "0", a: "0", sub: 1, open: dOpen("last", optRO)},
+	{name: "ro-sub-frompath", ro: true, level: "all", thin: true, ctor: "1", a: "1", sub: 1, open: fromPath(true)},
+	{name: "ro-sub-frompathx-excl", ro: true, level: "all", thin: true, ctor: "2", a: "1", b: 1, sub: 1, open: fromPathX(true, true)},
+	{name: "ro-sub-frompathx-nonexcl", ro: true, level: "all", thin: true, ctor: "2", a: "1", b: 0, sub: 1, open: fromPathX(true, false)},
+	{name: "ro-sub-filenew", ro: true, level: "all", thin: true, ctor: "3", a: "1", handle: 2, sub: 1, open: osNew(os.O_RDWR, true)},
+	{name: "ro-sub-filenew-rdonly", ro: true, level: "all", thin: true, ctor: "3", a: "1", handle: 0, sub: 1, open: osNew(os.O_RDONLY, true)},
+	{name: "ro-sub2-frompathx-nonexcl", ro: true, level: "all", thin: true, ctor: "2", a: "1", b: 0, sub: 2, open: fromPathX(true, false)},
+	// diskfs.OpenBackend(b, WithOpenMode(ReadOnly)) over a writable storage. As found the option is parsed and ignored
+	// (finding openbackend-ignores-readonly-mode): the table runs on a few images only, to keep the list of tagged failures short
+	{name: "ro-openbackend-opt", ro: true, level: "all", thin: true, obOpt: true, ctor: "2", a: "0", b: 0, images: []string{"fat12"}, open: fromPathX(false, false)},
+	{name: "ro-openbackend-opt-mem", ro: true, mem: true, level: "all", thin: true, obOpt: true, ctor: "memrw", images: []string{"fat32", "ext4", "gpt", "squashfs"}},
+	// writable, for the reader clause and for finalized iso9660/squashfs: every constructor asked for write access
+	{name: "rw", mem: true, level: "all"},
+	{name: "rw-open-default", level: "all", ctor: "0", a: "default", open: dOpen("last")},
+	{name: "rw-open-rw", level: "all", ctor: "0", a: "2", open: dOpen("first", optRO, optRW)},
+	{name: "rw-open-rwx", level: "all", ctor: "0", a: "1", open: dOpen("last", optRWX)},
+	{name: "rw-frompath", level: "all", ctor: "1", a: "0", open: fromPath(false)},
+	{name: "rw-frompathx-excl", level: "all", ctor: "2", a: "0", b: 1, open: fromPathX(false, true)},
+	{name: "rw-frompathx-nonexcl", level: "all", ctor: "2", a: "0", b: 0, open: fromPathX(false, false)},
+	{name: "rw-filenew", level: "all", ctor: "3", a: "0", handle: 2, open: osNew(os.O_RDWR, false)},
+	{name: "rw-sub-frompathx-nonexcl", level: "all", thin: true, ctor: "2", a: "0", b: 0, sub: 1, open: fromPathX(false, false)},
+}
+
+func modeByName(n string) *modeDef {
+	for i := range modeDefs {
+		if modeDefs[i].name == n {
+			return &modeDefs[i]
+		}
+	}
+	return nil
+}
 
 type env struct {
 	im    *image
 	mode  string
+	md    *modeDef
 	d     *disk.Disk
+	ss    int64       // the sector size the disk was opened with
 	dev   *memdev.Dev // non-nil for memdev-backed modes
 	path  string      // non-empty for file-backed modes
 	hash0 string
+	cheap bool // table cases of the quick tier: stamp per call, SHA-256 per (image, mode) group
 	close func()
 }
 
@@ -142,6 +300,7 @@ func fileHash(p string) string {
 	return hex.EncodeToString(h.Sum(nil))
 }
 
+// dump writes the pristine image to its file (again, after a case changed it).
 func (im *image) dump(dir string) (string, error) {
 	if im.file != "" {
 		return im.file, nil
@@ -163,57 +322,95 @@ func (im *image) dump(dir string) (string, error) {
 		}
 	}
 	im.file = p
+	f.Sync()
+	im.fhash = fileHash(p)
+	// let the clock leave the timestamp granule of the last write: a later write then shows in mtime/ctime
+	time.Sleep(20 * time.Millisecond)
+	im.fstat = fileStamp(p)
 	return p, nil
 }
 
-func openEnv(c *hx.Ctx, im *image, mode string) (*env, error) {
-	e := &env{im: im, mode: mode, close: func() {}}
-	var err error
-	switch mode {
-	case "ro-backend", "rw":
-		e.dev = im.proto.Clone()
-		e.dev.ReadOnly = mode == "ro-backend"
-		e.hash0 = e.dev.Hash(0, im.size)
-		e.d, err = openDisk(e.dev, im.ss)
-	case "ro-open":
-		if e.path, err = im.dump(c.Scratch); err != nil {
-			return nil, err
-		}
-		e.hash0 = fileHash(e.path)
-		opts := []diskfs.OpenOpt{diskfs.WithOpenMode(diskfs.ReadOnly)}
-		if im.ss != 512 {
-			opts = append(opts, diskfs.WithSectorSize(diskfs.SectorSize(im.ss)))
-		}
-		e.d, err = diskfs.Open(e.path, opts...)
-	case "ro-frompath":
-		if e.path, err = im.dump(c.Scratch); err != nil {
-			return nil, err
-		}
-		e.hash0 = fileHash(e.path)
-		var b backend.Storage
-		if b, err = file.OpenFromPath(e.path, true); err == nil {
-			e.d, err = openDisk(b, im.ss)
-		}
-	case "ro-filenew":
-		// the OS handle IS writable; only the library's own refusal protects the image
-		if e.path, err = im.dump(c.Scratch); err != nil {
-			return nil, err
-		}
-		e.hash0 = fileHash(e.path)
-		var f *os.File
-		if f, err = os.OpenFile(e.path, os.O_RDWR, 0o600); err == nil {
-			e.d, err = openDisk(file.New(f, true), im.ss)
-		}
-	}
+// fileStamp: size, mtime and ctime (which no user call can set back). Every write(2)/pwrite(2)/truncate
+// changes it; it is the cheap per-call probe of the quick tier, the SHA-256 of the file being compared
+// at the end of every (image, mode) group, after every sequence, after every constructor case and at once
+// whenever the stamp moved (thorough tier: SHA-256 after every call).
+func fileStamp(p string) string {
+	fi, err := os.Stat(p)
 	if err != nil {
-		return nil, fmt.Errorf("open %s/%s: %w", im.name, mode, err)
+		return "unreadable:" + err.Error()
 	}
-	if e.d != nil {
-		d := e.d
-		e.close = func() {
-			if d.Backend != nil {
-				d.Backend.Close()
-			}
+	st, _ := fi.Sys().(*syscall.Stat_t)
+	if st == nil {
+		return fmt.Sprintf("%d/%d", fi.Size(), fi.ModTime().UnixNano())
+	}
+	return fmt.Sprintf("%d/%d.%d/%d.%d", fi.Size(), st.Mtim.Sec, st.Mtim.Nsec, st.Ctim.Sec, st.Ctim.Nsec)
+}
+
+// restore: a case changed the file (a property failure, reported by that case): the next case starts
+// from the pristine image again.
+func (im *image) restore(dir string) {
+	if im.file != "" {
+		os.Remove(im.file)
+		im.file = ""
+	}
+	im.dump(dir)
+}
+
+func ssOptions(ss int64, explicit bool) []diskfs.OpenOpt {
+	if ss == 512 && !explicit {
+		return nil
+	}
+	return []diskfs.OpenOpt{diskfs.WithSectorSize(diskfs.SectorSize(ss))}
+}
+
+func openEnv(c *hx.Ctx, im *image, mode string) (*env, error) {
+	md := modeByName(mode)
+	if md == nil {
+		return nil, fmt.Errorf("unknown mode %s", mode)
+	}
+	e := &env{im: im, mode: mode, md: md, ss: im.ss, close: func() {}}
+	if md.ss4k {
+		e.ss = 4096
+	}
+	ssOpt := ssOptions(e.ss, md.name == "ro-open-ssfirst")
+	var (
+		err error
+		b   backend.Storage
+	)
+	if md.mem {
+		e.dev = im.proto.Clone()
+		e.dev.ReadOnly = md.ro && !md.obOpt
+		e.hash0 = e.dev.Hash(0, im.size)
+		b = e.dev
+	} else {
+		if e.path, err = im.dump(c.Scratch); err != nil {
+			return nil, err
+		}
+		e.hash0 = im.fhash
+		e.d, b, err = md.open(e.path, ssOpt)
+		if err != nil {
+			return nil, fmt.Errorf("open %s/%s: %w", im.name, mode, err)
+		}
+		if e.d != nil && md.sub > 0 {
+			b, e.d = e.d.Backend, nil
+		}
+	}
+	for i := 0; i < md.sub; i++ {
+		b = backend.Sub(b, 0, im.size)
+	}
+	if e.d == nil {
+		if md.obOpt {
+			ssOpt = append(append([]diskfs.OpenOpt{}, ssOpt...), optRO)
+		}
+		if e.d, err = diskfs.OpenBackend(b, ssOpt...); err != nil {
+			b.Close()
+			return nil, fmt.Errorf("open %s/%s: %w", im.name, mode, err)
+		}
+	}
+	d := e.d
+	e.close = func() {
+		if d.Backend != nil {
+			d.Backend.Close()
 		}
 	}
 	return e, nil
@@ -238,7 +435,148 @@ func (e *env) changed() bool {
 	if e.dev != nil {
 		return e.dev.Hash(0, e.im.size) != e.hash0
 	}
+	if e.cheap && fileStamp(e.path) == e.im.fstat {
+		return false
+	}
 	return fileHash(e.path) != e.hash0
+}
+
+// accMode: O_ACCMODE of the OS handle behind the backend ("-" when there is none): 0 O_RDONLY, 1 O_WRONLY, 2 O_RDWR
+func accMode(b backend.Storage) string {
+	f, err := b.Sys()
+	if err != nil || f == nil {
+		return "-"
+	}
+	fl, _, en := syscall.Syscall(syscall.SYS_FCNTL, f.Fd(), syscall.F_GETFL, 0)
+	if en != 0 {
+		return "?"
+	}
+	return fmt.Sprint(int(fl) & syscall.O_ACCMODE)
+}
+
+// thinOps: the reduced op set of the quick tier for modes that wrap a constructor whose full table runs
+// under its direct mode: every disk-level op and one op of every class of the decision model
+var thinOps = map[string]bool{"mkdir": true, "rename": true, "remove": true, "setlabel": true, "setlabel-current": true,
+	"chmod": true, "chown": true, "chtimes": true, "symlink": true, "write": true, "write-append": true, "open-rdwr": true,
+	"open-create": true, "open-trunc": true, "readdir": true, "read": true, "link": true}
+
+// ctorCase: one (image, mode): which handle and which answer of Writable() the constructor really gives,
+// against the row of the Lean constructor table
+func ctorCase(c *hx.Ctx, im *image, md *modeDef) {
+	id := fmt.Sprintf("c/%s/%s", im.name, md.name)
+	if !c.Want(id) || md.ctor == "" {
+		return
+	}
+	desc := fmt.Sprintf("image=%s mode=%s constructor", im.name, md.name)
+	e, err := openEnv(c, im, md.name)
+	if err != nil {
+		c.Fail(id, "-", "cannot open: "+err.Error(), desc)
+		return
+	}
+	defer e.close()
+	e.writesSeen()
+	w, werr := e.d.Backend.Writable()
+	wst := "ok"
+	if werr != nil {
+		wst = "refused"
+	} else if w == nil {
+		wst = "nil"
+	}
+	acc := accMode(e.d.Backend)
+	c.Case(id, "readonly.ctor", "ctor="+md.ctor, "a="+md.a, fmt.Sprintf("b=%d", md.b), fmt.Sprintf("handle=%d", md.handle),
+		fmt.Sprintf("sub=%d", md.sub), fmt.Sprintf("ob=%d", b2i(md.obOpt)))
+	c.Impl(id, "open=ok", "acc="+acc, "w="+wst)
+	c.Stat("ctor." + md.name)
+	c.Stat("ctor.acc." + acc + ".writable-" + wst)
+	var probs []string
+	if md.ro && werr == nil {
+		probs = append(probs, "read-only access was asked for and Writable() hands out a writer")
+	}
+	if !md.ro && werr != nil {
+		probs = append(probs, "write access was asked for and Writable() refuses: "+werr.Error())
+	}
+	if n := e.writesSeen(); n != 0 {
+		probs = append(probs, fmt.Sprintf("%d WriteAt call(s) while opening", n))
+	}
+	if e.changed() {
+		probs = append(probs, "image SHA-256 changed by opening")
+		if e.dev == nil {
+			im.restore(c.Scratch)
+		}
+	}
+	if len(probs) == 0 {
+		c.OK(id)
+		c.Distinct(desc)
+		return
+	}
+	tag := "-"
+	if md.obOpt && len(probs) == 1 && strings.HasPrefix(probs[0], "read-only access was asked for and Writable()") {
+		tag = tagOpenBackend
+	}
+	c.Fail(id, tag, strings.Join(probs, "; "), desc)
+}
+
+// tagOpenBackend: diskfs.OpenBackend parses WithOpenMode and ignores it; trigger: the mode is asked through that
+// option over a storage that is itself writable; the failure it explains: the disk behaves as writable
+const tagOpenBackend = "openbackend-ignores-readonly-mode"
+
+// missingPathCases: every path-taking constructor asked for read-only access on a path that does not exist:
+// an error, and the path still does not exist afterwards (nothing may be created)
+func missingPathCases(c *hx.Ctx) {
+	p := filepath.Join(c.Scratch, "ro-no-such-image.img")
+	try := func(name string, open func() error) {
+		id := "c/missing-path/" + name
+		if !c.Want(id) {
+			return
+		}
+		os.Remove(p)
+		err := open()
+		_, serr := os.Stat(p)
+		c.Stat("ctor.missing-path")
+		switch {
+		case err == nil:
+			c.Fail(id, "-", "opening a path that does not exist succeeded", name)
+		case serr == nil:
+			c.Fail(id, "-", "a refused read-only open created the file", name)
+			os.Remove(p)
+		default:
+			c.OK(id)
+		}
+	}
+	try("open-ro", func() error { _, err := diskfs.Open(p, optRO); return err })
+	try("frompath-ro", func() error { _, err := file.OpenFromPath(p, true); return err })
+	try("frompathx-ro-excl", func() error { _, err := file.OpenFromPathWithExclusive(p, true, true); return err })
+	try("frompathx-ro-nonexcl", func() error { _, err := file.OpenFromPathWithExclusive(p, true, false); return err })
+	try("frompathx-empty", func() error { _, err := file.OpenFromPathWithExclusive("", true, false); return err })
+}
+
+// badModeCase: an OpenModeOption that is none of the three yields no disk
+func badModeCase(c *hx.Ctx, im *image) {
+	id := fmt.Sprintf("c/%s/open-badmode", im.name)
+	if !c.Want(id) {
+		return
+	}
+	desc := fmt.Sprintf("image=%s diskfs.Open(WithOpenMode(7))", im.name)
+	p, err := im.dump(c.Scratch)
+	if err != nil {
+		c.Fail(id, "-", err.Error(), desc)
+		return
+	}
+	d, err := diskfs.Open(p, diskfs.WithOpenMode(diskfs.OpenModeOption(7)))
+	c.Case(id, "readonly.ctor", "ctor=0", "a=7", "b=0", "handle=0", "sub=0")
+	if err != nil {
+		c.Impl(id, "open=refused", "acc=-", "w=refused")
+	} else {
+		c.Impl(id, "open=ok", "acc="+accMode(d.Backend), "w=?")
+		d.Backend.Close()
+	}
+	c.Stat("ctor.open-badmode")
+	if fileHash(p) != im.fhash {
+		c.Fail(id, "-", "image SHA-256 changed", desc)
+		im.restore(c.Scratch)
+		return
+	}
+	c.OK(id)
 }
 
 // ---- operations ------------------------------------------------------------------------------
@@ -296,6 +634,23 @@ func ops() []opDef {
 		{"readpart", "disk", false, false, func(e *env, _ filesystem.FileSystem) error {
 			e.d.ReadPartitionContents(1, io.Discard)
 			return nil
+		}},
+		{"getpartition", "disk", false, false, func(e *env, _ filesystem.FileSystem) error {
+			e.d.GetPartition(1)
+			e.d.GetPartition(0)
+			return nil
+		}},
+		{"verify-table", "disk", false, false, func(e *env, _ filesystem.FileSystem) error {
+			// gpt.Table.Verify takes the storage itself
+			if t, err := e.d.GetPartitionTable(); err == nil {
+				if g, ok := t.(*gpt.Table); ok {
+					g.Verify(e.d.Backend, uint64(e.d.Size))
+				}
+			}
+			return nil
+		}},
+		{"reread-table", "disk", false, true, func(e *env, _ filesystem.FileSystem) error {
+			return e.d.ReReadPartitionTable() // ioctl on the handle from Sys() on block devices; nothing on a file
 		}},
 		{"getfs", "disk", false, false, func(e *env, _ filesystem.FileSystem) error {
 			fs, err := e.d.GetFilesystem(e.im.part)
@@ -377,6 +732,16 @@ func ops() []opDef {
 	list = append(list,
 		opDef{"link", "fs", false, true, func(_ *env, fs filesystem.FileSystem) error { return fs.Link("A.TXT", "H.LNK") }},
 		opDef{"mknod", "fs", false, true, func(_ *env, fs filesystem.FileSystem) error { return fs.Mknod("NOD", 0o600, 0) }},
+		opDef{"finalize", "fs", false, true, func(_ *env, fs filesystem.FileSystem) error {
+			// Finalize of a filesystem that was read from the image (already finalized): must not reach the device
+			switch x := fs.(type) {
+			case *iso9660.FileSystem:
+				return x.Finalize(iso9660.FinalizeOptions{})
+			case *squashfs.FileSystem:
+				return x.Finalize(squashfs.FinalizeOptions{})
+			}
+			return nil
+		}},
 		opDef{"truncate", "fs", false, true, func(_ *env, fs filesystem.FileSystem) error {
 			if x, ok := fs.(*ext4.FileSystem); ok {
 				return x.Truncate("A.TXT", 3)
@@ -483,7 +848,7 @@ func finalized(kind string) bool { return kind == "iso9660" || kind == "squashfs
 
 // judge applies the property to one executed op. Returns "" if it holds.
 func judge(e *env, o *opDef, r result) string {
-	ro := strings.HasPrefix(e.mode, "ro-")
+	ro := e.md.ro
 	mustReject := o.mutator && (ro || (o.level == "fs" && finalized(e.im.kind)))
 	var probs []string
 	if r.panicked != "" {
@@ -511,14 +876,47 @@ func outcome(r result) string {
 
 // one (image, mode) table row set: every op once on a fresh environment
 func tableCases(c *hx.Ctx, im *image, mode string) {
+	md := modeByName(mode)
+	if md.ss4k && im.ss == 4096 {
+		return // the image already has 4096-byte sectors: the plain mode is this one
+	}
+	if md.images != nil {
+		in := false
+		for _, n := range md.images {
+			in = in || n == im.name
+		}
+		if !in {
+			return
+		}
+	}
+	ran := false
+	defer func() {
+		// the SHA-256 of the file after every call of this (image, mode) group
+		if !ran || im.file == "" {
+			return
+		}
+		id := fmt.Sprintf("t/%s/%s/image-sha256", im.name, mode)
+		if fileHash(im.file) == im.fhash {
+			c.OK(id)
+			return
+		}
+		c.Fail(id, "-", "image SHA-256 changed during the calls of this group", fmt.Sprintf("image=%s mode=%s (all ops)", im.name, mode))
+		im.restore(c.Scratch)
+	}()
 	for i := range allOps {
 		o := &allOps[i]
 		id := fmt.Sprintf("t/%s/%s/%s", im.name, mode, o.name)
 		if !c.Want(id) {
 			continue
 		}
-		if mode == "rw" && (o.mutator || o.extra) && !(o.level == "fs" && finalized(im.kind)) {
+		if !md.ro && (o.mutator || o.extra) && !(o.level == "fs" && finalized(im.kind)) {
 			continue // a writable, unfinalized filesystem may be modified: not this property's subject
+		}
+		if md.level == "disk" && o.level != "disk" {
+			continue
+		}
+		if md.thin && !c.Thorough() && o.level != "disk" && !thinOps[o.name] {
+			continue
 		}
 		desc := fmt.Sprintf("image=%s kind=%s mode=%s op=%s", im.name, im.kind, mode, o.name)
 		func() {
@@ -528,6 +926,8 @@ func tableCases(c *hx.Ctx, im *image, mode string) {
 				return
 			}
 			defer e.close()
+			e.cheap = !c.Thorough()
+			ran = ran || e.dev == nil
 			e.writesSeen()
 			var fs filesystem.FileSystem
 			if o.level == "fs" {
@@ -536,30 +936,39 @@ func tableCases(c *hx.Ctx, im *image, mode string) {
 					c.Fail(id, "-", "GetFilesystem on the prepared image: "+err.Error(), desc)
 					return
 				}
-				defer fs.Close()
+				defer safeClose(fs)
 				if n := e.writesSeen(); n != 0 {
 					c.Fail(id, "-", fmt.Sprintf("GetFilesystem wrote (%d WriteAt)", n), desc)
 					return
 				}
 			}
 			r := runOp(e, fs, o)
+			if fs != nil {
+				// Close of the filesystem object belongs to the call: nothing it does may reach the device either
+				func() {
+					defer func() { recover() }()
+					fs.Close()
+				}()
+				r.writes += e.writesSeen()
+			}
 			ch := e.changed()
 			msg := judge(e, o, r)
 			if ch {
 				msg = strings.TrimPrefix(msg+"; image SHA-256 changed", "; ")
+				if e.dev == nil {
+					defer im.restore(c.Scratch)
+				}
 			}
 			fin := finalized(im.kind) && o.level == "fs"
 			c.Stat("op." + o.name)
 			c.Stat("mode." + mode)
+			c.Stat("image." + im.name)
 			c.Stat("outcome." + outcome(r))
 			// correspondence with the Lean decision table
-			rok := 0
-			if strings.HasPrefix(mode, "ro-") {
-				rok = 1
-			}
-			if !o.extra { // Link / Mknod / Truncate are outside the modelled decision table
+			rok := b2i(md.ro)
+			if !o.extra && !md.obOpt { // Link / Mknod / Truncate are outside the modelled decision table; obOpt: only the constructor is compared
 				c.Case(id, "readonly.op", "kind="+im.kind, fmt.Sprintf("ro=%d", rok), fmt.Sprintf("fin=%d", b2i(fin)),
-					fmt.Sprintf("ss=%d", im.ss), "op="+o.name)
+					fmt.Sprintf("ss=%d", e.ss), "op="+o.name)
 				c.Impl(id, "out="+outcome(r), fmt.Sprintf("w=%d", r.writes))
 			}
 			if msg == "" {
@@ -571,9 +980,18 @@ func tableCases(c *hx.Ctx, im *image, mode string) {
 			if tag == "" || msg != "mutating call returned nil error" {
 				tag = "-"
 			}
+			if md.obOpt && r.panicked == "" {
+				tag = tagOpenBackend // the disk is writable although read-only was asked for: the call went through / wrote
+			}
 			c.Fail(id, tag, msg, desc)
 		}()
 	}
+}
+
+// safeClose: a second Close (the call's own Close came first) must not take the harness down
+func safeClose(fs filesystem.FileSystem) {
+	defer func() { recover() }()
+	fs.Close()
 }
 
 func b2i(b bool) int {
@@ -598,7 +1016,7 @@ func sequence(c *hx.Ctx, id string, im *image, mode string, names []string) {
 		c.Fail(id, "-", "GetFilesystem on the prepared image: "+err.Error(), desc)
 		return
 	}
-	defer fs.Close()
+	defer safeClose(fs)
 	var probs []string
 	tag := ""
 	for i, n := range names {
@@ -622,10 +1040,6 @@ func sequence(c *hx.Ctx, id string, im *image, mode string, names []string) {
 			tag = "-"
 		}
 	}
-	if e.changed() {
-		probs = append(probs, "image SHA-256 changed")
-		tag = "-"
-	}
 	// after the whole history the tree still reads back as built
 	if got, err := ml.ReadTree(fs); err != nil {
 		probs = append(probs, "tree no longer readable through the same filesystem object: "+err.Error())
@@ -635,7 +1049,24 @@ func sequence(c *hx.Ctx, id string, im *image, mode string, names []string) {
 		// which is what the property is about — recorded in the distribution, not judged
 		c.Stat("seq.object-view-drifted")
 	}
+	// closing the filesystem object after the history (phantom state included) must not reach the device either
+	func() {
+		defer func() { recover() }()
+		fs.Close()
+	}()
+	if n := e.writesSeen(); n != 0 && (e.md.ro || finalized(im.kind)) {
+		probs = append(probs, fmt.Sprintf("Close after the history: %d WriteAt call(s) reached the device", n))
+		tag = "-"
+	}
+	if e.changed() {
+		probs = append(probs, "image SHA-256 changed")
+		tag = "-"
+		if e.dev == nil {
+			defer im.restore(c.Scratch)
+		}
+	}
 	c.Stat("seq.len." + fmt.Sprint(len(names)/10*10))
+	c.Stat("seq.mode." + mode)
 	if len(probs) == 0 {
 		c.OK(id)
 		c.Distinct(desc)
@@ -651,15 +1082,32 @@ func sequence(c *hx.Ctx, id string, im *image, mode string, names []string) {
 // Run is the engine entry point.
 func Run(c *hx.Ctx) {
 	allOps = ops()
-	images, err := buildImages()
+	images, err := buildImages(c.Thorough())
 	if err != nil {
 		c.Fail("setup", "-", "cannot build the images: "+err.Error(), "")
 		return
 	}
-	// 1. the whole table: every entry point x every image x every mode
+	// 0. the constructors themselves: handle and Writable() of every mode against the Lean constructor table
 	for _, im := range images {
-		for _, m := range modes {
-			tableCases(c, im, m)
+		for k := range modeDefs {
+			ctorCase(c, im, &modeDefs[k])
+		}
+		badModeCase(c, im)
+	}
+	missingPathCases(c)
+	// 1. the whole table: every entry point x every image x every mode
+	var roModes, rwModes []string
+	for _, md := range modeDefs {
+		if md.level == "all" && md.ro && !md.obOpt {
+			roModes = append(roModes, md.name)
+		}
+		if md.level == "all" && !md.ro {
+			rwModes = append(rwModes, md.name)
+		}
+	}
+	for _, im := range images {
+		for _, md := range modeDefs {
+			tableCases(c, im, md.name)
 		}
 	}
 	// 2. interleavings. Sequence alphabet: fs-level ops plus the disk-level ones.
@@ -687,9 +1135,11 @@ func Run(c *hx.Ctx) {
 	nseq := c.N(120, 3000)
 	for i := 0; i < nseq; i++ {
 		im := hx.Pick(r, images)
-		mode := hx.Pick(r, modes[:4])
+		mode := hx.Pick(r, roModes)
+		rw := false
 		if finalized(im.kind) && r.Chance(30) {
-			mode = "rw"
+			mode = hx.Pick(r, rwModes)
+			rw = true
 		}
 		l := 1 + r.Intn(50)
 		if r.Chance(50) {
@@ -700,7 +1150,7 @@ func Run(c *hx.Ctx) {
 			for {
 				seq[j] = hx.Pick(r, names)
 				o := opByName(seq[j])
-				if mode == "rw" && o.level == "disk" && o.mutator {
+				if rw && o.level == "disk" && o.mutator {
 					continue
 				}
 				break
